@@ -19,7 +19,7 @@ from embit.descriptor.checksum import add_checksum, checksum
 from embit.networks import NETWORKS
 
 PROP = "C12"
-MODS = ["EmbitModel.Props.C12"]
+MODS = ["EmbitModel.Props.C12", "EmbitModel.Props.C12X"]
 HARD = dgen.HARD
 
 
@@ -66,6 +66,53 @@ def parse_print(text):
 
 def ok_text(s):
     return "none" if s is None else "ok " + hx(s)
+
+
+def dump_obj(d):
+    """the descriptor OBJECT, field for field (C12X.parse_print_idem is about the object, not only its text)"""
+    from embit import ec, bip32
+    from embit.descriptor.arguments import Key, KeyHash, Number, Raw
+    from embit.descriptor.miniscript import Miniscript
+
+    def key(k):
+        kk = k.key
+        if isinstance(kk, str):
+            kv = ("raw", kk)
+        elif isinstance(kk, bip32.HDKey):
+            kv = ("hd", kk.to_base58())
+        elif isinstance(kk, ec.PrivateKey):
+            kv = ("priv", kk.wif())
+        else:
+            kv = ("pub", kk.sec().hex())
+        o = None if k.origin is None else (k.origin.fingerprint.hex(), list(k.origin.derivation))
+        a = None if k.allowed_derivation is None else [list(x) if isinstance(x, list) else x
+                                                       for x in k.allowed_derivation.indexes]
+        return (type(k).__name__, o, kv, a, bool(k.xonly_repr), bool(k.taproot))
+
+    def arg(a):
+        if isinstance(a, Key):
+            return key(a)
+        if isinstance(a, Number):
+            return ("num", a.num)
+        if isinstance(a, Raw):
+            return ("raw", a.raw.hex())
+        if isinstance(a, Miniscript):
+            return ms(a)
+        return ("?", repr(a))
+
+    def ms(m):
+        return None if m is None else (type(m).__name__, bool(m.taproot), [arg(a) for a in m.args])
+
+    def tree(t):
+        x = t.tree
+        if x is None:
+            return None
+        if isinstance(x, (list, tuple)):
+            return [tree(y) for y in x]
+        return ("leaf", ms(x.miniscript), x.version)
+
+    return repr((ms(d.miniscript), bool(d.sh), bool(d.wsh), None if d.key is None else key(d.key), bool(d.wpkh),
+                 bool(d.taproot), tree(d.taptree)))
 
 
 def scripts_of(d):
@@ -147,11 +194,17 @@ def check_desc(c, D, kind, full=False):
     d2, s2 = parse_print(s) if s is not None else (None, None)
     if s is not None and s2 != s:
         c.fail("parse(print(d)) prints differently", dict(info, printed=s, reprinted=s2))
+    o1 = guarded(dump_obj, d)
+    if d2 not in (None, "TIMEOUT") and (o1 is None or guarded(dump_obj, d2) != o1):
+        c.fail("parse(print(parse t)) is not the same descriptor object as parse t", dict(info, printed=s))
     if V != T:
         dv, sv = parse_print(V)
         c.expect("desc.parse " + hx(V), ok_text(sv), dict(info, variant=V), proven=False)
         if sv != T:
             c.fail("a variant spelling does not normalise to the canonical text", dict(info, variant=V, printed=sv))
+        elif dv in (None, "TIMEOUT") or guarded(dump_obj, dv) != o1:
+            c.fail("a variant spelling parses to a different descriptor object than the canonical text",
+                   dict(info, variant=V))
         c.tally("variant-texts")
     # ---- scripts at (i, b)
     pairs = index_branch_pairs(c, D, full)
@@ -393,6 +446,13 @@ def hostile_texts(c, pool):
         "tr(a)", "tr(ab)", "wsh(", "wsh()", "sh()", "pkh()", "wpkh(", "sh(wpkh", "sh(wpkh(", "wpkh(%s" % X,
         "wpkh(%s))" % X, "wpkh(%s)#" % X, "wpkh(%s)#x" % X, "wpkh(%s) #abc" % X, "wpkh(%s)\n" % X,
         "wpkh(%s,%s)" % (X, X), "wpkh((%s))" % X, "WPKH(%s)" % X, "wpkh[%s]" % X,
+        # C12X: the spellings the normalisation theorem speaks of
+        "tr(%s/<0;*>/1)" % X, "wpkh(%s/{*,5})" % X, "wsh(pk(%s/{0,*}))" % X, "wsh(multi(1,%s/<0;*>,%s/<1;2>/*))" % (X, X),
+        "wsh(pkh([%s/0][%s))" % (fp, "a" * 39), "wsh(pkh([%s/0]%s))" % (fp, "zz" * 20), "wsh(pk_h(%s))" % ("Ab" * 20),
+        "wsh(pkh([%s))" % ("a" * 39), "wpkh([%s/-0/-7h/007/0_0']%s/+0/00/-0/*)" % (fp, Xn),
+        "wpkh([%s/ 1 /\t2\n]%s/{ 1,2 }/*)" % (fp.upper(), Xn), "wsh(:pk(%s))" % S.upper(), "tr(%s)" % xo.upper(),
+        "wsh(and_v(v:pk(%s/{0,1}/*),older(0010)))" % X, "wsh(thresh(01,pk(%s)))" % X, "wsh(multi(001,%s))" % X,
+        "wpkh(%s/2147483647'/*)" % Pv, "wpkh(%s/<0H;1';2h>/*)" % Pv,
     ]
     return res
 
@@ -406,13 +466,20 @@ def check_hostile(c, text, kind="hostile"):
         c.tally(kind + ":rejected")
         return
     c.tally(kind + ":accepted")
+    # C12X.parse_print_idem: every accepted text prints, the printed text is accepted and gives the SAME object
     if s is None:
-        c.tally(kind + ":accepted-unprintable")
+        c.fail("an accepted descriptor cannot be printed", info)
         return
     d2, s2 = parse_print(s)
     if s2 != s:
         c.fail("an accepted text does not print/parse stably", dict(info, printed=s, reprinted=s2))
         return
+    o1, o2 = guarded(dump_obj, d), guarded(dump_obj, d2)
+    if o1 is None or o1 != o2:
+        c.fail("parse(print(parse t)) is not the same descriptor object as parse t",
+               dict(info, printed=s, first=str(o1)[:600], second=str(o2)[:600]))
+        return
+    c.tally("idem:object-identical")
     for (i, b) in [(0, None), (1, 0)]:
         _, sc = derive_scripts(d, i, b)
         c.expect("desc.script %s %d %s" % (hx(text), i, bs(b)), sc, dict(info, index=i, branch=b), proven=False)
@@ -444,7 +511,23 @@ def mutate_text(r, t):
 def validate_keys(c, pool):
     """Model/DescKeys.lean (Base58, BIP32, WIF, tweak — the driver's stand-in for C09-C11) against embit"""
     r = c.rng
-    from embit import ec
+    from embit import ec, bip32
+    # the hypothesis `KeyCodec` of C12X (C10/C11: an accepted key text / SEC string re-encodes to itself), on embit
+    for _ in range(12):
+        node, _ = pool.account()
+        for t in (node.to_base58(), node.to_public().to_base58()):
+            c.count(("codec", t), nontrivial=True)
+            if bip32.HDKey.from_base58(t).to_base58() != t or len(t) < 4 or t[0] == "[":
+                c.fail("KeyCodec hypothesis: an accepted extended key text does not re-encode to itself", {"kind": "codec", "text": t})
+    for p in pool.privs[:6]:
+        for comp in (True, False):
+            for net in ("main", "test"):
+                t = ec.PrivateKey(p.secret, compressed=comp, network=NETWORKS[net]).wif()
+                b = ec.PrivateKey(p.secret, compressed=comp).sec()
+                c.count(("codec", t), nontrivial=True)
+                if ec.PrivateKey.from_wif(t).wif() != t or ec.PublicKey.parse(b).sec() != b:
+                    c.fail("KeyCodec hypothesis: an accepted WIF / SEC encoding does not re-encode to itself", {"kind": "codec", "text": t})
+    c.tally("codec-hypothesis-checked")
     for _ in range(6):
         k = r.randrange(1, dgen.N)
         c.expect("dk.pub %d" % k, "ok " + ec.PrivateKey(k.to_bytes(32, "big")).sec().hex(), {"kind": "dk"}, proven=False)
